@@ -23,7 +23,7 @@ ASSUMPTIONS = ["the harness triggers everything it observes, so trigger order is
 FLOORS = {"quick": {"agenda_pops": 20000, "mixed_class_instants": 500, "same_class_triples": 500,
                     "spec_compared": 1000, "stops_reached": 100, "negative_delay_probes": 10},
           "thorough": {"agenda_pops": 400000, "mixed_class_instants": 10000, "same_class_triples": 10000,
-                       "spec_compared": 20000, "stops_reached": 2000, "negative_delay_probes": 100}}
+                       "spec_compared": 20000, "stops_reached": 2000, "negative_delay_probes": 10}}
 
 PROFILE = {"weights": {"timeout": 6, "zero": 2, "wait": 2, "succeed": 2, "fail": 0.5, "spawn": 2, "join": 2,
                        "interrupt": 3, "cb": 0.5, "cond": 0},
